@@ -22,5 +22,5 @@ try:
         print(('CAUGHT' if r.returncode == 1 and 'VIOLATION property=' in r.stdout else 'MISSED(exit %d)' % r.returncode), c, rel, repr(old[:50]), '->', repr(new[:50]))
         for l in tail: print('   ', l[:260])
 finally:
-    subprocess.run(['git', '-C', '/repo', 'checkout', '--', '.'])
+    subprocess.run(['git', '-C', '/repo', 'checkout', '--', '.']); subprocess.run(['git', '-C', '/repo', 'clean', '-fdq', 'src'])
     subprocess.run(['rm', '-f'] + [os.path.join('/verif/replays', c, f) for c in checks for f in (os.listdir(os.path.join('/verif/replays', c)) if os.path.isdir(os.path.join('/verif/replays', c)) else []) if f.startswith('run-')])
